@@ -5,6 +5,7 @@ import random
 
 import p_rsync
 
+from vlib import clip as vclip
 from vlib import Broken, Verdict, read_ndjson, write_ndjson, require_coverage
 
 TRACE_CFG = "SPECIFICATION Spec\nCHECK_DEADLOCK TRUE\n"
@@ -147,7 +148,7 @@ def check(w):
             byid[o["id"]] = o
         else:
             scn = o.get("scn") or {}
-            byid[scn.get("id", -1)] = {"id": scn.get("id", -1), "result": "crashed" if o.get("crashed") else "hung", "err": (o.get("stderr") or "")[-1500:], "final": [], "extra": []}
+            byid[scn.get("id", -1)] = {"id": scn.get("id", -1), "result": "crashed" if o.get("crashed") else "hung", "err": vclip(o.get("stderr"), 1500), "final": [], "extra": []}
     base_digest = {}
     for ln in lines:
         if ln.get("baseline"):
